@@ -19,7 +19,9 @@
      model folds from 0 (same value for p >= 1); `newf.max() < 0` is modelled as "every entry
      is < 0" (identical unless an entry is NaN); `x.powi(2)` is `x*x`; `norm(2)` of the right-hand
      side in the solver (`powf`) is `sqrt(sum x*x)` (few-ulp difference: compared with tolerance);
-   - `pitr` only takes the values 0 and pcgmaxi: the model keeps the boolean `pitr == 0`. *)
+   - `pitr` only takes the values 0 and pcgmaxi: the model keeps the boolean `pitr == 0`;
+   - the backtracking line search tries exactly 100 steps (after the repair bdb775f) and fails with
+     Err("Exceeded maximum number of iteration ...") = None when none is accepted. *)
 From Coq Require Import List ZArith Bool.
 From SC Require Import Base.Num.
 Import ListNotations.
@@ -201,7 +203,10 @@ Section Model.
       | None => line_search fuel' X yc lam t w u dx du phi gdx (mul c_beta s)
       end
     end.
-  Definition ls_fuel : nat := 1200.
+  (* `let max_ls_iter = 100; while lsiter < max_ls_iter { try s; s = beta*s; lsiter += 1 }` then
+     `if lsiter == max_ls_iter { return Err }` (repair bdb775f: the counter is now incremented):
+     exactly 100 trial steps 1, 1/2, ..., 2^-99; out of fuel = Err = None *)
+  Definition ls_fuel : nat := 100.
 
   (* ---------- one outer iteration ---------- *)
   Record ipstate := mkst { st_w : list T; st_u : list T; st_dobj : T; st_t : T; st_s : T;
